@@ -330,6 +330,45 @@ def r1_template(ctx, chk, rule="C11.1"):
     return game_terms
 
 
+def _dict_items_entry(G, ce, entry, case):
+    """`[(p, s) for s, p in {s1: p1, s2: p2}.items()]`: a distribution written as a dictionary keyed by the successor.  Keys that
+    coincide in this case (the tile and its wrap-around neighbour on a one-column board) are ONE entry - the later value
+    replaces the earlier one - which is exactly what the dictionary does at run time.  None when not of that shape / not decided."""
+    from ..symx import subst as _subst
+    L = G.sx.loops.get(entry[1])
+    if L is None or L.filters or not L.whole:
+        return None
+    src_t = L.source
+    if not (src_t[0] == "mcall" and src_t[2] == "items" and not src_t[3]):
+        return None
+    d = ce.ev(src_t[1])
+    if d[0] != "dict":
+        return None
+    items = []
+    try:
+        for k, v in d[1]:
+            kp = ce.poly(ce.ev(k))
+            hit = None
+            for i_, (kp0, _, _) in enumerate(items):
+                sg = (kp - kp0).sign(FRESH)
+                if sg == "0":
+                    hit = i_
+                elif sg not in ("+", "-"):
+                    return None
+            if hit is None:
+                items.append((kp, k, v))
+            else:
+                items[hit] = (items[hit][0], items[hit][1], v)
+    except Undecided:
+        return None
+    out = []
+    for kp, k, v in items:
+        el = _subst(L.elt, lambda x: ("tup", (("polyval", kp), v)) if x == ("elem", L.id) else None)
+        from ..symx import deep_simp as _ds
+        out.append(_ds(el))
+    return ("list", tuple(out))
+
+
 def r2_replace_chain(ctx, chk, game_terms, rule="C11.2"):
     if not game_terms:
         chk.undecided(rule, "roberta_generator.py", "no game expressions found")
@@ -452,6 +491,8 @@ def r3_wellformed(ctx, chk, rule="C11.3"):
                         if entry is not None and entry[0] == "pyentry":
                             # post-processed entry: back to terms for the checks below
                             entry = ("list", tuple(("tup", ((C(k) if isinstance(k, str) else ("polyval", k)), ("polyval", tp))) for k, tp in entry[1]))
+                        if entry is not None and entry[0] == "compr":
+                            entry = _dict_items_entry(G, ce, entry, cs) or entry
                         if entry is not None and entry[0] != "list":
                             n_bad += 1
                             chk.undecided(rule, where, "%s: entry `%s` is not resolved to a list of transitions in this case" % (ctxt, show(entry)[:80]))
